@@ -11,7 +11,9 @@ Clauses of the property and the theorems that carry them (all for every shape / 
 * half = part of full ........ `half_is_part_of_full`, `contWedge_half_is_part_of_full`, `rfshape_eq_crop`
 * negation symmetry .......... `freq_neg_symm`, `radialMask_neg_symm`, `bandpass_neg_symm`,
                                `whiten_reflect_symm`, `contWedge_neg_symm_offNyquist`
-                               (+ `contWedge_nyquist_current_defect`)
+                               (+ `contWedge_nyquist_current_defect`); stacks (`batch_dimension`):
+                               `whitenShiftAxes_mem`, `whitenShiftAxes_none`
+                               (+ `whitenShiftAxesOld_current_defect_first/last`)
 * range ...................... `discrete_in_01`, `bandpass_discrete_in_01`, `contWedge_in_01`
 * zero frequency ............. `dc_kept_lowpass`, `dc_removed_highpass`
 * composition = product ...... `compose_eq_product`, `product_perm`
@@ -156,6 +158,39 @@ theorem whiten_reflect_symm (L : SignLaws o) (spec : Array α) (shape : List Nat
       (whiten o spec shape sirf).getD idx d := by
   unfold whiten
   exact radialMask_neg_symm o L _ _ _ _ _ _ _ (by simp) h hf
+
+/-! ### the axes un-shifted at the end of `LinearWhiteningFilter.__call__` (with and without a batch axis) -/
+
+/-- the repaired code un-shifts exactly the two-sided axes of the mask: every axis but its last -/
+theorem whitenShiftAxes_mem (nd : Nat) (batch : Option Nat) (i : Nat) :
+    i ∈ whitenShiftAxes nd batch ↔ i + 1 < maskRank nd batch := by
+  unfold whitenShiftAxes
+  rw [List.mem_range]
+  omega
+
+example : whitenShiftAxes 3 (some 0) = [0] ∧ whitenShiftAxes 4 (some 0) = [0, 1] ∧ whitenShiftAxes 3 none = [0, 1] := by decide
+
+/-- without a batch axis the old and the repaired axes coincide (the repair changes nothing there) -/
+theorem whitenShiftAxes_none (nd : Nat) : whitenShiftAxesOld nd none = whitenShiftAxes nd none := by
+  unfold whitenShiftAxesOld whitenShiftAxes maskRank
+  simp
+
+/-- before the repair a stack (`batch_dimension = 0`) left the first two-sided axis of the mask centred … -/
+theorem whitenShiftAxesOld_current_defect_first (nd : Nat) : 0 ∉ whitenShiftAxesOld nd (some 0) := by
+  unfold whitenShiftAxesOld
+  simp
+
+/-- … and un-shifted its one-sided last axis instead (`nd ≥ 3`: a stack of at least 2-D transforms) -/
+theorem whitenShiftAxesOld_current_defect_last (nd : Nat) (h : 3 ≤ nd) :
+    maskRank nd (some 0) - 1 ∈ whitenShiftAxesOld nd (some 0) := by
+  unfold whitenShiftAxesOld maskRank
+  simp only [List.mem_filter, List.mem_range, decide_eq_true_eq]
+  refine ⟨by omega, ?_⟩
+  intro hc
+  have := Option.some.inj hc
+  omega
+
+example : whitenShiftAxesOld 3 (some 0) = [1] ∧ whitenShiftAxes 3 (some 0) = [0] := by decide
 
 /-! ## a half-spectrum shape passed in as such gives the crop of the full mask -/
 
